@@ -134,6 +134,7 @@ def mon_c03(k, domain, password, up_frames, wildcard=False, srv="srv", check_ip=
             ev, slot=rec["slot"], via=rec["via"], sent_by=rec["by"], frame=frame.hex()[:120],
             carrying_datagram_seen=frame in seen_at_recv)
 
+    bound = {}      # slot -> address (ip) the server bound it to: the VACK's destination, moved by a correct raw login
     for ev in k.log:
         kind, who, kw = ev[1], ev[2], ev[3]
         if who != srv:
@@ -204,6 +205,7 @@ def mon_c03(k, domain, password, up_frames, wildcard=False, srv="srv", check_ip=
                             ev, slot=uid, sent_to=kw["dst"][0])
                     elif rawauthed.get(uid):
                         kinds.add(("raw-login-reply", "authorised"))
+                        bound[uid] = kw["dst"][0]        # (a correct raw login is the sanctioned way to move a session)
                     else:
                         bad("C03:raw-login-accepted-without-valid-response",
                             "server acknowledged a raw-mode login for slot %d that had not answered challenge+1 after a DNS login" % uid,
@@ -241,6 +243,7 @@ def mon_c03(k, domain, password, up_frames, wildcard=False, srv="srv", check_ip=
                     vack_in_interval.add(uid)
                     asm.reset(uid)
                     st["c03_vacks"] += 1
+                    bound[uid] = kw["dst"][0]
                 continue
             uid = named_slot(text)
             if c == b"l":
@@ -269,7 +272,13 @@ def mon_c03(k, domain, password, up_frames, wildcard=False, srv="srv", check_ip=
                 if len(raw) >= 3 and p == raw[1:3]:
                     effect = "fragsize-set"
             if effect:
-                if authed.get(uid) and not check_ip and locked.get(uid) and effect in ("codec-switched", "option-set", "fragsize-set"):
+                if check_ip and authed.get(uid) and bound.get(uid) is not None and kw["dst"][0] != bound[uid]:
+                    # with source checking on, the session that answered the challenge is the one at the address the slot is bound
+                    # to; whoever asks from elsewhere has answered nothing
+                    bad("C03:%s-for-an-address-that-never-logged-in" % effect,
+                        "server answered %r to a %s request naming slot %r from %s; the session that answered the slot's challenge is at %s"
+                        % (p[:12], c.decode().upper(), uid, kw["dst"][0], bound[uid]), ev, slot=uid)
+                elif authed.get(uid) and not check_ip and locked.get(uid) and effect in ("codec-switched", "option-set", "fragsize-set"):
                     # without source checking the server cannot tell on whose behalf a request comes; that is what the options
                     # lock is for: once a session has set its fragment size (end of its handshake) its codec, options and
                     # fragment size stay as they are until the slot is handed out again
